@@ -381,6 +381,22 @@ def opArchive (j : Json) : Json :=
       ("files", toJson ((m.2.files.map (·.1)).toArray.qsort (· < ·)).toList),
       ("fingerprinted", toJson ((m.2.manifest.map (fun mm => mm.fingerprints.map (·.1))).getD []))])).toArray)]
 
+/-! op `chain`: stages (scan, preceding?, matcher script) over an origin file → what each stage
+    reads and collects in a serial run -/
+def opChain (j : Json) : Json :=
+  let origin := (getArr j "recs").toList.map recOfJson
+  let sj := (getArr j "stages").toList
+  let parsed := sj.map (fun m => (parseScanText (getStr m "scan"), getBool m "preceding",
+      (getArr m "script").toList.map entryOfJson))
+  if parsed.any (fun p => match p.1 with | .error _ => true | .ok _ => false) then
+    Json.mkObj [("error", toJson "scan")]
+  else
+    let stages : List (Chain.Stage Script) := parsed.map (fun p =>
+      { m := scripted, scan := (match p.1 with | .ok s => s | .error _ => {}), init := { todo := p.2.2 }, preceding := p.2.1 })
+    let out := Chain.serialChain origin stages none
+    Json.mkObj [("stages", Json.arr (out.map (fun x => Json.mkObj [
+      ("input", Json.arr (x.1.map jsonOfRec).toArray), ("lines", Json.arr (x.2.map jsonOfRec).toArray)])).toArray)]
+
 def handle (line : String) : Json :=
   match Json.parse line with
   | .error e => Json.mkObj [("error", toJson s!"bad-json: {e}")]
@@ -397,6 +413,7 @@ def handle (line : String) : Json :=
     else if op == "byline" then opByLine j
     else if op == "rundirs" then opRunDirs j
     else if op == "archive" then opArchive j
+    else if op == "chain" then opChain j
     else Json.mkObj [("error", toJson s!"bad-op: {op}")]
 
 partial def loop (h : IO.FS.Stream) (out : IO.FS.Stream) : IO Unit := do
